@@ -1,0 +1,17 @@
+//go:build verif
+
+package lalr
+
+// Verification hooks for property C05 (add-only, compiled with -tags verif only).
+
+// VerifPack runs the displacement-table packer on lines given as ascending (pos, val) pairs and
+// returns the base index of every line together with the table and check arrays.
+func VerifPack(lines [][][2]int) (indices, table, check []int) {
+	in := make([]line, len(lines))
+	for i, l := range lines {
+		for _, p := range l {
+			in[i].pairs = append(in[i].pairs, pair{pos: p[0], val: p[1]})
+		}
+	}
+	return pack(in)
+}
